@@ -106,6 +106,9 @@ class Assembly:
                 if 'pubfields' in a:
                     # visibility only: private fields become `pub` so that specifications can mention them (no behaviour)
                     text, cnt = re.subn(r'(\n\s+)(?!pub\b)([a-z_][a-z0-9_]*\s*:)', r'\1pub \2', text)
+                    if re.match(r'\s*(struct|enum)\b', text):
+                        text = 'pub ' + text.lstrip()
+                        cnt += 1
                     self.rewrites.append(('R2 field visibility -> pub', a[kind], cnt))
                 self.emit('// ---- copied (R2) from %s:%d-%d sha256=%s' % (rec['file'], rec['line_start'], rec['line_end'], rec['sha256'][:16]))
                 if 'attr' in a:
@@ -129,6 +132,8 @@ class Assembly:
                         cur = sections['loops'].setdefault(int(t.split()[1]), [])
                     elif t.startswith('//@closure '):
                         cur = sections['closures'].setdefault(int(t.split()[1]), [])
+                    elif t.startswith('//@sub? '):
+                        sections['subs'].append('?' + t[len('//@sub? '):]); cur = None
                     elif t.startswith('//@sub '):
                         sections['subs'].append(t[len('//@sub '):]); cur = None
                     elif t.startswith('//@sigsub '):
@@ -371,6 +376,9 @@ def _derive_impls(text, kind, name, derives):
 
 def _apply_sub(sub, text, fname):
     """sub syntax:  "old" => "new" [xN]   (literal text, must occur exactly N times, default 1)"""
+    optional = sub.startswith('?')
+    if optional:
+        sub = sub[1:]
     m = re.match(r'\s*"((?:[^"\\]|\\.)*)"\s*=>\s*"((?:[^"\\]|\\.)*)"\s*(?:x(\d+))?\s*$', sub)
     if not m:
         raise Undecided('template error: bad //@sub %s' % sub)
@@ -378,6 +386,8 @@ def _apply_sub(sub, text, fname):
     new = bytes(m.group(2), 'utf-8').decode('unicode_escape')
     want = int(m.group(3) or 1)
     cnt = text.count(old)
+    if optional and cnt == 0:
+        return text, 0      # a pure path-resolution substitution: nothing to resolve in this body
     if cnt != want:
         raise Undecided('lost anchor in fn %s: %r occurs %d times, expected %d' % (fname, old, cnt, want))
     return text.replace(old, new), cnt
